@@ -123,3 +123,106 @@ theorem C20_trans_consumePchar : ∀ (whole : GB.Bytes) (c : UInt8) (r : GB.Byte
           cases GB.C20.isHexDigit h1 <;> cases GB.C20.isHexDigit h2 <;> simp
     · have : (c != 37) = true := by simp [h37]
       simp [hp', this, GB.C20.cPct]
+
+/-! ### `checkIdent` (internal/httprule) and `expectIdent` (gwbased): RUNE loops over a string
+
+Both Go functions iterate `for i, r := range s` (UTF-8 runes, `GB.Trans.runes`); the hand model iterates BYTES and
+Chars.lean argues informally that this is exact.  Here it is a theorem: every rune ≥ 0x80 is rejected, a byte ≥ 0x80
+never decodes to an ASCII rune (`decodeRune_nonascii`), so the rune loop equals the byte loop (`loop_runes_bytes`). -/
+
+/-- the `switch` of both functions; `z` = "offset is 0", `c` = the rune -/
+def GB.C20.TransTie.identBody (z : Bool) (c : Int) : Ctl Bool Unit :=
+  if (decide ((48 : Int) ≤ c) && decide (c ≤ (57 : Int))) then (if z then Ctl.ret true else Ctl.next ())
+  else if (decide ((65 : Int) ≤ c) && decide (c ≤ (90 : Int))) then Ctl.next ()
+  else if (decide ((97 : Int) ≤ c) && decide (c ≤ (122 : Int))) then Ctl.next ()
+  else if (c == (95 : Int)) then Ctl.next ()
+  else Ctl.ret true
+
+open GB.C20.TransTie
+
+set_option maxRecDepth 100000 in
+theorem GB.C20.TransTie.identBody_first (b : UInt8) :
+    identBody true (Int.ofNat b.toNat) = if GB.C20.isIdentStart b then Ctl.next () else Ctl.ret true := by
+  have := byte_forall (fun b => decide (identBody true (Int.ofNat b.toNat) = if GB.C20.isIdentStart b then Ctl.next () else Ctl.ret true))
+    (by decide) b
+  exact of_decide_eq_true this
+
+set_option maxRecDepth 100000 in
+theorem GB.C20.TransTie.identBody_later (b : UInt8) :
+    identBody false (Int.ofNat b.toNat) = if GB.C20.isIdentByte b then Ctl.next () else Ctl.ret true := by
+  have := byte_forall (fun b => decide (identBody false (Int.ofNat b.toNat) = if GB.C20.isIdentByte b then Ctl.next () else Ctl.ret true))
+    (by decide) b
+  exact of_decide_eq_true this
+
+theorem GB.C20.TransTie.identBody_stop (z : Bool) (r : Int) (h : 128 ≤ r) : identBody z r = Ctl.ret true := by
+  have h1 : ¬ ((48 : Int) ≤ r ∧ r ≤ 57) := by omega
+  have h2 : ¬ ((65 : Int) ≤ r ∧ r ≤ 90) := by omega
+  have h3 : ¬ ((97 : Int) ≤ r ∧ r ≤ 122) := by omega
+  have h4 : ¬ (r = 95) := by omega
+  simp [identBody, h1, h2, h3, h4]
+
+theorem GB.C20.TransTie.ident_tail : ∀ (r : Bytes) (off : Int), 0 < off →
+    loop (enumFrom off r) () (fun p (_ : Unit) => identBody (p.1 == 0) (Int.ofNat p.2.toNat)) =
+      if r.all GB.C20.isIdentByte then Out.done () else Out.ret true := by
+  intro r
+  induction r with
+  | nil => intro off _; rfl
+  | cons b r ih =>
+    intro off hoff
+    have hz : (off == 0) = false := by simp; omega
+    simp only [enumFrom, loop, hz, identBody_later, List.all_cons]
+    by_cases hb : GB.C20.isIdentByte b = true
+    · simpa [hb] using ih (off + 1) (by omega)
+    · have hb' : GB.C20.isIdentByte b = false := by simpa using hb
+      simp [hb']
+
+theorem GB.C20.TransTie.ident_loop (s : Bytes) :
+    loop (runes s) () (fun p (_ : Unit) => identBody (p.1 == 0) p.2) =
+      match s with
+      | [] => Out.done ()
+      | c :: r => if GB.C20.isIdentStart c && r.all GB.C20.isIdentByte then Out.done () else Out.ret true := by
+  rw [loop_runes_bytes (fun p (_ : Unit) => identBody (p.1 == 0) p.2) true (fun off r st h => identBody_stop _ r h)]
+  cases s with
+  | nil => rfl
+  | cons c r =>
+    have hz : ((0 : Int) == 0) = true := by decide
+    simp only [enumFrom, loop, hz, identBody_first]
+    by_cases hc : GB.C20.isIdentStart c = true
+    · have := ident_tail r (0 + 1) (by omega)
+      simp only [hc, if_true, Bool.true_and]
+      rw [this]
+    · have hc' : GB.C20.isIdentStart c = false := by simpa using hc
+      simp [hc']
+
+/-- internal/httprule `checkIdent` (error ⇔ the model rejects), for EVERY byte string (valid UTF-8 or not) -/
+theorem C20_trans_checkIdent : ∀ s : GB.Bytes, GB.Generated.Trans.checkIdent s = !GB.C20.stCheckIdent s := by
+  intro s
+  show (match loop (runes s) () (fun p (_ : Unit) => identBody (p.1 == 0) p.2) with
+        | Out.ret r => r
+        | Out.done _ => false) = _
+  rw [ident_loop]
+  cases s with
+  | nil => rfl
+  | cons c r =>
+    simp only [GB.C20.stCheckIdent]
+    cases (GB.C20.isIdentStart c && r.all GB.C20.isIdentByte) <;> rfl
+
+/-- gwbased `expectIdent` (error ⇔ the model rejects; the empty identifier is an error) -/
+theorem C20_trans_expectIdent : ∀ s : GB.Bytes, GB.Generated.Trans.expectIdent s = !GB.C20.gwExpectIdent s := by
+  intro s
+  cases s with
+  | nil => rfl
+  | cons c r =>
+    show (if ((c :: r) == ([] : GB.Bytes)) then true else
+          (match loop (runes (c :: r)) () (fun p (_ : Unit) => identBody (p.1 == 0) p.2) with
+            | Out.ret r => r
+            | Out.done _ => false)) = _
+    rw [ident_loop]
+    have hne : ((c :: r) == ([] : GB.Bytes)) = false := by simp
+    simp only [hne, Bool.false_eq_true, if_false, GB.C20.gwExpectIdent]
+    cases (GB.C20.isIdentStart c && r.all GB.C20.isIdentByte) <;> rfl
+
+/-- not vacuous: "é" (C3 A9) is rejected through the rune path, "a1" accepted, "1a" rejected -/
+example : GB.Generated.Trans.checkIdent [195, 169] = true := by decide
+example : GB.Generated.Trans.checkIdent [97, 49] = false := by decide
+example : GB.Generated.Trans.expectIdent [49, 97] = true := by decide
